@@ -2,5 +2,7 @@ SPECIFICATION TraceSpec
 CONSTANTS
   Repaired = TRUE
   RepairedSI = TRUE
+  RepairedN88 = TRUE
+  RepairedN115 = TRUE
 POSTCONDITION TraceAccepted
 CHECK_DEADLOCK FALSE
